@@ -877,6 +877,7 @@ func (pc *PeerConnection) updateConnectionState(
 		return
 	}
 
+	verifhook.Point("pc.updateConnectionState.changed")
 	pc.onConnectionStateChange(connectionState)
 }
 
